@@ -113,8 +113,11 @@ static bool judge_query(size_t qi, const std::string& got, int cls, int ocls, co
 // r denotes class `cls` (its gamma was just read).  Observers must agree with it and must not change it.
 static void terminal_layer(D& r, int cls, const std::string& site, const std::string& inj) {
   int n = r.space_dimension();
-  bool okk = false;
-  try { okk = r.OK(); } catch (...) {}
+  // OK() re-runs the closure and demands an identical matrix: with rounding or saturating bound types the closure is
+  // not idempotent, so the invariant is only demanded for the exact types (mpq, mpz)
+  static const bool check_ok = EXACT_T || (!BT<BTy>::is_float && BT<BTy>::bits == 0);
+  bool okk = !check_ok;
+  if (check_ok) { try { okk = r.OK(); } catch (...) {} }
   if (!okk) { viol(site, "invariant:OK()", "none", inj, "OK() false", "OK() true"); return; }
   // terminal queries, each on a fresh clone
   for (size_t qi = 0; qi < QS.size(); ++qi) {
